@@ -473,6 +473,23 @@ fn created_of(mask: u64) -> CreatedWords {
     c
 }
 
+fn buffer_source() -> String {
+    let toml = std::fs::read_to_string(format!("{}/harness/Cargo.toml", std::env::var("VERIF_ROOT").unwrap_or_else(|_| "/verif".into()))).unwrap_or_default();
+    let dir = toml.lines().find_map(|l| {
+        let l = l.trim();
+        if l.starts_with("sudachi") && l.contains("path") {
+            l.split("path").nth(1).and_then(|r| r.split('"').nth(1)).map(|x| x.to_string())
+        } else { None }
+    }).unwrap_or_else(|| "/repo/sudachi".to_string());
+    std::fs::read_to_string(format!("{}/src/input_text/buffer/mod.rs", dir)).unwrap_or_default()
+}
+
+/// does `InputBuffer::build` let a banned NOOOVBOW2 character ban its successor too (repaired code)?
+fn source_chains_bow_ban() -> bool {
+    static P: std::sync::OnceLock<bool> = std::sync::OnceLock::new();
+    *P.get_or_init(|| buffer_source().contains("next_bow = !cat.intersects(CategoryType::NOOOVBOW2)"))
+}
+
 fn source_is_forward() -> bool {
     static P: std::sync::OnceLock<bool> = std::sync::OnceLock::new();
     *P.get_or_init(|| {
@@ -503,7 +520,8 @@ fn text_tokens(d: &Defs, chars: &[char]) -> String {
         Ok(v) if !v.is_empty() => format!(" variant={}", v),
         _ => format!(" variant={}", if source_is_forward() { "fwd" } else { "bwd" }),
     };
-    format!("text={} def={}{}", join(chars.iter().map(|c| *c as u32), ","), hex(d.char_def.as_bytes()), v)
+    let b = if source_chains_bow_ban() { " bow=fix" } else { "" };
+    format!("text={} def={}{}{}", join(chars.iter().map(|c| *c as u32), ","), hex(d.char_def.as_bytes()), v, b)
 }
 
 fn label_runs(cats: &[u32], observed: &[usize]) -> &'static str {
